@@ -18,21 +18,6 @@ class _Remote(object):
         self._log = []  # mutating request tails that succeeded, in order
         self._where = {}  # driver -> (generation, handle, number of log entries applied)
 
-    def _handle(self):
-        drv = core.current_driver()
-        ent = self._where.get(drv)
-        if ent is not None and (drv.proc is None or ent[0] != drv.generation):
-            ent = None
-        if ent is None:
-            h = int(core.request(self._new_body))
-            ent = (drv.generation, h, 0)
-        gen, h, applied = ent
-        while applied < len(self._log):
-            core.request(self._log[applied] % h)
-            applied += 1
-        self._where[drv] = (drv.generation, h, applied)
-        return drv, h
-
     def _mutate(self, template):
         """template contains one %d for the handle"""
         drv, h = self._handle()
@@ -65,12 +50,13 @@ class _Remote(object):
             pass
 
 
-# replay must tolerate logged failing commands
-def _patched_handle(self):
+def _handle(self):
+    """(driver, handle) of this object in the current driver process, creating/replaying it if needed;
+    log entries starting with '!' are commands that raised (their partial effect is reproduced, errors ignored)"""
     drv = core.current_driver()
     ent = self._where.get(drv)
-    if ent is not None and (drv.proc is None or ent[0] != drv.generation):
-        ent = None
+    if ent is not None and (drv.proc is None or drv.proc.poll() is not None or ent[0] != drv.generation):
+        ent = None  # that process is gone: re-create the object in the next one from the command log
     if ent is None:
         h = int(core.request(self._new_body))
         ent = (drv.generation, h, 0)
@@ -91,7 +77,7 @@ def _patched_handle(self):
     return drv, h
 
 
-_Remote._handle = _patched_handle
+_Remote._handle = _handle
 
 
 class _GetitemMixin(object):
@@ -139,13 +125,33 @@ class ArrayBuilder(_GetitemMixin, _Remote):
 
     def __init__(self, initial=1024, resize=1.5):
         self._remote_init("ab_new %s %s" % (e_int(initial), dbl(resize)), "ab_del")
+        self._pending = []  # well-formed command sequences produced by fromiter(), not yet sent
+        self._manual = False  # True once begin*/end*/field/index were called by hand: then nothing is deferred
         self._handle()
+
+    def _flush(self):
+        if self._pending:
+            cmds, self._pending = self._pending, []
+            i = 0
+            while i < len(cmds):
+                self._mutate("ab_batch %d " + " ".join(c.replace("%", "%%") for c in cmds[i:i + 20000]))
+                i += 20000
+
+    def _query(self, template):
+        self._flush()
+        return _Remote._query(self, template)
 
     @property
     def _ptr(self):
         raise RuntimeError("pyshim: ArrayBuilder._ptr (raw pointer for Numba) is not available")
 
     def _cmd(self, *cmds):
+        self._flush()
+        head = cmds[0][1:].split(" ")[0].rstrip(")")
+        if head == "clear":
+            self._manual = False
+        elif head.startswith("begin") or head.startswith("end") or head in ("field", "index"):
+            self._manual = True
         self._mutate("ab_batch %d " + " ".join(c.replace("%", "%%") for c in cmds))
 
     def clear(self):
@@ -223,13 +229,15 @@ class ArrayBuilder(_GetitemMixin, _Remote):
             _fromiter(cmds, obj)
         except Exception as e:  # commands collected before the failure are applied first, as in C++
             err = e
-        # send in chunks to bound the line length
-        i = 0
-        while i < len(cmds):
-            self._cmd(*cmds[i:i + 20000])
-            i += 20000
+        # The sequences built by _fromiter are well-formed by construction (balanced begin/end, fields inside
+        # records), so the C++ builder cannot reject them: they are buffered and sent with the next
+        # operation that needs the builder's state (ak.from_iter calls fromiter once per element).
+        self._pending.extend(cmds)
         if err is not None:
+            self._flush()
             raise err
+        if self._manual or len(self._pending) > 50000:
+            self._flush()  # inside a hand-made list/record/tuple the C++ builder may legitimately refuse
 
 
 def _i64(x):
